@@ -26,7 +26,7 @@ META = dict(
          "OwnResponseOrError, MismatchNeverDelivered, AfterFaultAllFail, the in-flight "
          "bound the code really guarantees (Max+1; the property's bound Max is shown to fail on the model) and that every "
          "started call and Close return. Every conductor-reproducible behaviour of 3 callers x Max in {1,2} with one fault, "
-         "of 2 callers with a fault and a read timeout (thorough: also 4 callers x Max in {1,2,3}), impatient re-runs of the "
+         "of 2 callers with a fault and a read timeout (thorough: also 4 callers x Max in {2,3}), impatient re-runs of the "
          "late-answer behaviours, and seeded random behaviours of 6 callers x 2 calls x Max in {1,2,5} are replayed on the "
          "real Broker over loopback TCP; "
          "each request (MetadataRequest, or ListPartitionReassignmentsRequest for the flexible v1 response header) carries a "
@@ -70,7 +70,7 @@ def gen_cases(ctx, out):
     runs = [("BrokerConn.gen.cfg", None, "gen"), ("BrokerConn.gen2.cfg", None, "gen2")]
     if ctx.tier == "thorough":
         runs.append(("BrokerConn.gen4.cfg", None, "gen4"))
-        runs.append(("BrokerConn.sim.cfg", "num=6000", "sim"))
+        runs.append(("BrokerConn.sim.cfg", "num=4000", "sim"))
     else:
         runs.append(("BrokerConn.sim.cfg", "num=400", "sim"))
     seen = set()
